@@ -80,6 +80,17 @@ def nesting_attacks(r):
     out.append(("wide-seq", struct.pack(">H", 16) + enc_int("int16", 16384) + struct.pack(">H", 15) * 16384))
     out.append(("wide-seq-truncated", struct.pack(">H", 16) + enc_int("int16", 16384) + struct.pack(">H", 15) * 100))
     out.append(("wide-map", struct.pack(">H", 17) + enc_int("int16", 16384) + b"".join(enc_int("int16", i) + struct.pack(">H", 15) for i in range(16384))))
+    # declared-length attacks INSIDE a container with a large declared count: a length field that makes the decoder
+    # re-read or skip bytes (negative, huge) multiplies with the count
+    for outer in (16, 18, 17):
+        for count_w, count in (("int16", 16384), ("int8", 100), ("int16", 300)):
+            for inner in (13, 14, 16, 17, 18):
+                for width, v in (("int8", -1), ("int8", -5), ("int8", -128), ("int16", -300), ("int32", -2 ** 31), ("int64", -2 ** 63), ("int8", 0),
+                                 ("int32", 2 ** 31 - 1), ("int16", 16384)):
+                    elem = struct.pack(">H", inner) + enc_int(width, v)
+                    if outer == 17:
+                        elem = enc_int("int8", 1) + elem              # key, then the value under attack
+                    out.append(("nested-declared-length", struct.pack(">H", outer) + enc_int(count_w, count) + elem + r.randbytes(r.choice([0, 3, 12]))))
     # unhashable keys / members
     lst = struct.pack(">H", 16) + enc_int("int8", 0)
     dct = struct.pack(">H", 17) + enc_int("int8", 0)
@@ -415,7 +426,7 @@ def run_shard(cfg):
 def finish(tier, seed, results):
     m = merge(results)
     inconclusive = []
-    need(m["counters"], ["inputs", "returned", "raised_ordinary_exception", "control_valid_decoded", "inputs_declared-length", "inputs_deep-nesting-seq",
+    need(m["counters"], ["inputs", "returned", "raised_ordinary_exception", "control_valid_decoded", "inputs_declared-length", "inputs_nested-declared-length", "inputs_deep-nesting-seq",
                          "inputs_truncation", "inputs_bitflip", "inputs_typeid", "inputs_random", "via_client-hello-handler", "via_challenge-handler",
                          "via_server-hello-handler", "via_request-message", "decoded_values_inspected", "decoder_line_steps", "post_control_valid_decoded"], inconclusive)
     if m["counters"].get("watchdog_inconclusive"):
